@@ -12,7 +12,7 @@ CRATES = {
 
 PROPS = {}
 NOT_APPLICABLE = {}
-HOOK_COMMITS = ["f557953", "95d4aac", "0dd5fab", "0711d5a"]
+HOOK_COMMITS = ["f557953", "95d4aac", "0dd5fab", "0711d5a", "84d23c1", "4aa2857", "62a6e25", "b4c61b8", "537c82c", "dd96c50"]
 
 PROPS["C18"] = {
     "title": "Bitboards behave as sets of squares",
@@ -206,7 +206,7 @@ PROPS["C10"] = {
     "functions": ["chess_movegen::MoveGen::{next,len,is_empty,size_hint,count,clone,set_mask,remove,remove_move}", "masked generation (legals_masked) is the symbolic destination mask of the C01 unit queries"],
     "bounds_quick": "ONE operation from an ARBITRARY iterator state: <= 6 symbolic entries (source, destination set, promotion flag), cursor, mask, promotion cursor, under the representation invariant (len/size_hint: <= 4 entries - popcount sums); "
                     "the operation's argument (mask / move) and a probe move symbolic. Induction over operations => sequences of any length and interleaving",
-    "bounds_thorough": "as quick with 18 entries (the list's capacity) for next and set_mask, 6 for len",
+    "bounds_thorough": "as quick with 18 entries (the list's capacity) for next, 9 for set_mask, 6 for len",
     "outside": "lists longer than the entry bound (each operation is a loop over entries with an entry-local body); the engine's staged use is C11",
     "stubs": [], "assumptions": ["representation invariant (entries before the cursor exhausted under the mask; a promotion group in progress belongs to the entry at the cursor; a move belongs to one entry) - established by the generator (asserted in the C01 unit queries) and shown preserved by every operation here"],
     "level_text": "The abstract state of the iterator is the SET of moves it still owns (membership predicate for a symbolic probe move, no enumeration). From an arbitrary state satisfying the representation invariant one real operation is run and the abstract state after must be exactly what the set model prescribes: "
